@@ -19,7 +19,11 @@ import (
 )
 
 func TestVerif_C11Warmup(t *testing.T) {
-	c := vStart(t, "C11", "TestVerif_C11Warmup")
+	prop := vEnv("VERIF_PROP", "C11")
+	if prop != "C14" {
+		prop = "C11"
+	}
+	c := vStart(t, prop, "TestVerif_C11Warmup")
 	defer c.Finish()
 	scratch := vEnv("VERIF_SCRATCH", t.TempDir())
 	idx := int64(0)
@@ -114,6 +118,89 @@ func TestVerif_C11Warmup(t *testing.T) {
 						c.Nontrivial(vNewHash().U64(uint64(myIdx)).Int(thr).Sum())
 					})
 				}
+			}
+		}
+	}
+
+	// 'clear' during the warm-up (fewer than preview-secs*fps frames since the connect): the camera
+	// restarted, the scene after it is a different one; detection restarts from scratch, so the
+	// background and threshold stored with a later recording are those of the new scene
+	for _, fps := range []int{3, 9} {
+		for preview := 1; preview <= 2; preview++ {
+			for before := 1; before <= preview*fps; before += 1 + fps/2 {
+				myIdx := idx
+				idx++
+				if !c.Mine(myIdx) {
+					continue
+				}
+				cam := leptonCamera("lepton3", 16, 12, fps)
+				cfg := basicConfig()
+				cfg.MinSecs, cfg.MaxSecs, cfg.PreviewSecs = 1, 2, preview
+				cfg.Motion = pMotion{Set: map[string]bool{"trigger-frames": true, "count-thresh": true, "frame-compare-gap": true}, TriggerFrames: 1, CountThresh: 1, FrameCompareGap: 1}
+				frames := []*pFrame{}
+				seq := 0
+				for i := 0; i < before; i++ {
+					frames = append(frames, &pFrame{Seq: seq, TimeOnMS: timeOnFor(seq), FPATempCK: 30000, FPAFFCCK: 30000, Pix: newPix(cam.ResX, cam.ResY, uint16(3000-i))})
+					seq++
+				}
+				frames = append(frames, &pFrame{Clear: true, Seq: -1})
+				after := preview*fps + 2*fps + 6
+				for i := 0; i < after; i++ {
+					f := &pFrame{Seq: seq, TimeOnMS: timeOnFor(seq), FPATempCK: 30000, FPAFFCCK: 30000, Pix: newPix(cam.ResX, cam.ResY, uint16(3600-i))}
+					if i >= preview*fps+2 && i < preview*fps+5 {
+						bx := 2 + (i*3)%9
+						for y := 4; y < 7; y++ {
+							for x := bx; x < bx+3; x++ {
+								f.Pix[y][x] = 24000
+							}
+						}
+					}
+					frames = append(frames, f)
+					seq++
+				}
+				lo := 3600 - after - 1
+				c.Case(myIdx, func() interface{} {
+					return map[string]interface{}{"fps": fps, "preview_secs": preview, "frames_before_the_clear": before, "frames_after_it": after,
+						"scene": "flat near 3000 before the 'clear', flat near 3600 (cooling by one count per frame) after it; dynamic threshold, start value 2900"}
+				}, func() {
+					r, err := prepareConn(scratch, cfg, cam)
+					if err != nil {
+						c.Inconclusive("prepareConn: " + err.Error())
+						return
+					}
+					defer r.cleanup()
+					r.serve(pacedFeed(cam, frames, 0), nil)
+					if r.Err != io.EOF {
+						c.Violation("connection-ended-abnormally", "", fmt.Sprintf("handleConn returned %v", r.Err))
+						return
+					}
+					files := decodeDir(r.OutDir)
+					if len(files) == 0 || files[0].Err != "" || len(files[0].Frames) == 0 || !files[0].Frames[0].Background {
+						c.Inconclusive("no decodable motion recording after the clear")
+						return
+					}
+					d := files[0]
+					var m map[string]interface{}
+					if err := yamlv2.Unmarshal([]byte(d.Motion), &m); err != nil {
+						c.Violation("header-motion-config", "", "motion config is not YAML: "+err.Error())
+						return
+					}
+					thr, _ := m["triggeredthresh"].(int)
+					minBg := 65535
+					for _, row := range d.Frames[0].Pix {
+						for _, v := range row {
+							if int(v) < minBg {
+								minBg = int(v)
+							}
+						}
+					}
+					if thr < lo || minBg < lo {
+						c.Violation("detection-not-restarted-by-clear", "clear during the threshold warm-up", fmt.Sprintf("a 'clear' arrived after %d frames (scene near 3000), the scene after it never was below %d; the recording made there stores threshold %d and a background whose coldest pixel is %d", before, lo, thr, minBg))
+						return
+					}
+					c.Count("clears_during_warmup", 1)
+					c.Nontrivial(vNewHash().U64(uint64(myIdx)).Int(thr).Int(minBg).Sum())
+				})
 			}
 		}
 	}
